@@ -109,7 +109,8 @@ Proof. intros. apply pres_modify; [assumption | reflexivity..]. Qed.
 Lemma pres_reset_internal : forall R, okrel R -> Pres R reset_internal.
 Proof. intros R H s. apply (r_fresh R H); reflexivity. Qed.
 
-Create HintDb pres.
+Create HintDb pres discriminated.
+#[export] Hint Constants Opaque : pres.
 #[export] Hint Resolve r_ok0 : pres.
 
 (* one step of syntax-directed decomposition; leaves goals it cannot close *)
@@ -142,7 +143,7 @@ Ltac pres_step :=
   | |- Pres _ (match ?x with _ => _ end) => destruct x
   | |- Pres _ (let _ := _ in _) => cbv zeta
   end.
-Ltac pres := repeat first [ solve [eauto 3 with pres] | pres_step ].
+Ltac pres := repeat first [ pres_step | solve [eauto 3 with pres] ].
 
 (* ================================================================== *)
 (* 2. the procedures that do not touch the filestore                  *)
@@ -767,6 +768,22 @@ Definition md_rest (h : hdr) (fsize : Z) (names : option (path * path)) (msgs : 
     emit (EvMetadataRecv src seq (h_src h) (match names with Some _ => Some fsize | None => None end) names msgs)
   end.
 
+Definition md_names (names : option (path * path)) : dparams -> dparams :=
+  match names with
+  | None => fun p => p <| p_md_only := true |> <| p_fin ::= (fun f => f <| f_deliv := DATA_COMPLETE |>) |>
+  | Some (_, dn) => fun p => p <| p_file_name := dn |>
+  end.
+Definition md_state (cl : bool) (ck sz : Z) (names : option (path * path)) (s : dst) : dst :=
+  s <| d_p ::= (fun p => p <| p_cktype := ck |> <| p_closure := cl |> <| p_md_missing := false |>) |>
+    <| d_p ::= md_names names |>
+    <| d_p ::= (fun p => p <| p_file_size := Some sz |>) |>.
+Lemma handle_metadata_packet_run : forall h cl ck sz names msgs s,
+  handle_metadata_packet h cl ck sz names msgs s = md_rest h sz names msgs (md_state cl ck sz names s).
+Proof.
+  intros. unfold handle_metadata_packet, md_state, md_names. rewrite bind_setp. cbv beta.
+  destruct names as [[sn dn]|]; rewrite bind_setp; cbv beta; rewrite bind_setp; cbv beta; unfold md_rest; reflexivity.
+Qed.
+
 Section Frame.
 Variable P : path -> Prop.
 Hypothesis Pnil : P [].
@@ -841,22 +858,14 @@ Qed.
 Lemma pres_handle_metadata_packet : forall h cl ck sz names msgs,
   PktOk (Some (PMetadata h cl ck sz names msgs)) -> Pres (Step P) (handle_metadata_packet h cl ck sz names msgs).
 Proof.
-  intros h cl ck sz names msgs Hok s. destruct names as [[sn dn]|].
-  - destruct Hok as [Pdn Pb].
-    set (s3 := s <| d_p ::= (fun p => p <| p_cktype := ck |> <| p_closure := cl |> <| p_md_missing := false |>) |>
-                 <| d_p ::= (fun p => p <| p_file_name := dn |>) |>
-                 <| d_p ::= (fun p => p <| p_file_size := Some sz |>) |>).
-    change (handle_metadata_packet h cl ck sz (Some (sn, dn)) msgs s) with (md_rest h sz (Some (sn, dn)) msgs s3).
-    apply (r_trans _ HR0 s s3).
-    + intros _. split; [exact Pdn | reflexivity].
-    + apply step_md_rest. intros _ b. exact (Pb b).
-  - set (s3 := s <| d_p ::= (fun p => p <| p_cktype := ck |> <| p_closure := cl |> <| p_md_missing := false |>) |>
-                 <| d_p ::= (fun p => p <| p_md_only := true |> <| p_fin ::= (fun f => f <| f_deliv := DATA_COMPLETE |>) |>) |>
-                 <| d_p ::= (fun p => p <| p_file_size := Some sz |>) |>).
-    change (handle_metadata_packet h cl ck sz None msgs s) with (md_rest h sz None msgs s3).
-    apply (r_trans _ HR0 s s3).
+  intros h cl ck sz names msgs Hok s. rewrite handle_metadata_packet_run.
+  apply (r_trans _ HR0 s (md_state cl ck sz names s)).
+  - destruct names as [[sn dn]|].
+    + destruct Hok as [Pdn Pb]. intros _. split; [exact Pdn | reflexivity].
     + apply (r_same _ HR0); reflexivity.
-    + apply step_md_rest. intro X. discriminate X.
+  - apply step_md_rest. destruct names as [[sn dn]|].
+    + destruct Hok as [Pdn Pb]. intros _ b. exact (Pb b).
+    + intro X. discriminate X.
 Qed.
 
 Lemma pres_start_transaction : forall h cl ck sz names msgs,
